@@ -111,7 +111,7 @@ RLinesRR == {RRLine(o, t, rd[1], rd[2], rd[3]) : o \in ROwners, t \in RTtls, rd 
 RLinesDir == {[k |-> "origin", name |-> <<"abs", o>>] : o \in UOrigins}
              \cup {[k |-> "origin", name |-> <<"rel", <<"a">>>>]}
              \cup {[k |-> "ttl", v |-> 60], [k |-> "blank", form |-> "comment"], [k |-> "bad", what |-> "qempty"]}
-             \cup {G1, G1b, G2}
+             \cup {G1, G1b, G2} \cup GNew
              \* ignored (out-of-zone) records in the multi-line layouts
              \cup {[RRLine(<<"abs", <<"x", "other">>>>, t, rd[1], rd[2], rd[3]) EXCEPT !.lay = l] :
                      l \in {"paren", "parenc", "paren0"}, t \in {<<"none">>, <<"t", 5>>},
@@ -147,6 +147,7 @@ PInherit == {[cls |-> {"IN"}, ord |-> {"tc"}, ttl |-> {"t"}, tg |-> {FALSE}, gen
 PSim == {[cls |-> {c}, ord |-> {o}, ttl |-> {"t", "u"}, tg |-> {g}, gen |-> {x}, lay |-> {y}, relorigin |-> TRUE] :
            c \in {"none", "IN", "CLASS1"}, o \in {"tc", "ct"}, g \in Bool, x \in Bool, y \in {"single", "paren", "parenc", "paren0"}}
 GZCur == Curated
+GZGen == GenZones
 GZEmpties == {Z1, Z2, Z3, Z6, Z7}
 GZW1Thorough == {Z2, Z3, Z6}
 GZSinglesT == {ZoneOf({r}) : r \in {r \in AllRecs : r[3] = 300}}
